@@ -56,7 +56,9 @@ const (
 	sigRetry         = "C15/retry/announcement-skipped-while-height-not-stored"
 	sigAvailWrong    = "C15/availability/ok-without-stored-block-or-wrong-error"
 	sigFallback      = "C15/multisource/request-not-routed-to-announcing-source"
-	barrierHeight    = int64(1) << 40
+	// barrier heights: announcements of heights far above the chain whose fetch fails (a legitimate history:
+	// a source announcing a height it then cannot serve); each barrier uses a fresh, larger height
+	barrierBase = int64(1) << 40
 )
 
 // ---------------------------------------------------------------------------------------------
@@ -75,6 +77,7 @@ type world struct {
 	block    *core.SignedBlock
 	calls    []srcCall
 	barrier  chan struct{} // closed when the listener asks for the barrier height
+	nBarrier int64
 	release  chan struct{}
 	chainIDs map[string]string
 }
@@ -89,7 +92,7 @@ func (s *source) SubscribeNewBlockEvent(context.Context) (chan core.BlockEvent, 
 
 func (s *source) GetSignedBlock(_ context.Context, height int64) (*core.SignedBlock, error) {
 	w := s.w
-	if height == barrierHeight {
+	if height >= barrierBase {
 		w.mu.Lock()
 		b, r := w.barrier, w.release
 		w.mu.Unlock()
@@ -310,8 +313,10 @@ func (r *run) feed(src *source, h int64) (ok bool) {
 	w.mu.Lock()
 	w.barrier, w.release = make(chan struct{}), make(chan struct{})
 	b := w.barrier
+	w.nBarrier++
+	bh := barrierBase + w.nBarrier
 	w.mu.Unlock()
-	for _, ev := range []int64{h, barrierHeight} {
+	for _, ev := range []int64{h, bh} {
 		select {
 		case src.ch <- core.VerifBlockEvent(ev, ""): // MultiSource overwrites the tag with the source's address
 		case <-time.After(30 * time.Second):
